@@ -159,5 +159,8 @@ pub(crate) fn resolve_partial<Fd: AsFd>(
         }
     }
 
-    unreachable!("partial_ancestors should include root path which must be resolvable");
+    // Even the lookup of the last ancestor (the root itself) can fail -- for
+    // instance with EMFILE, ENOMEM or because of a racing attacker -- so there is
+    // no usable partial result and all we can do is return the last error.
+    Err(last_error)
 }
